@@ -369,21 +369,15 @@ func c24StoreMenu() []c24StoreOp {
 		if !(strings.HasPrefix(inner.name, "prefix(") || inner.name == "has(delta)" || inner.name == "size(delta)" || inner.name == "get(commit)" || inner.name == "deltaobject(delta)") {
 			continue
 		}
-		ops = append(ops, c24StoreOp{"iter(any) open { " + inner.name + "; close-idle } drained", func(st *filesystem.Storage, r *c24Repo) string {
+		ops = append(ops, c24StoreOp{"iter(any) { " + inner.name + "; close-idle } after every step", func(st *filesystem.Storage, r *c24Repo) string {
 			it, err := st.IterEncodedObjects(plumbing.AnyObject)
 			if err != nil {
 				return normErr(err)
 			}
 			defer it.Close()
-			if _, err := it.Next(); err != nil {
-				return normErr(err)
-			}
-			if a := inner.run(st, r); a != "" {
-				return a
-			}
-			if err := st.CloseIdleDescriptors(); err != nil {
-				return normErr(err)
-			}
+			// the inner operation and close-idle run after EVERY step of the
+			// iteration, so they meet the iterator while it holds each pack's
+			// descriptors in turn (loose objects hold none)
 			for {
 				o, err := it.Next()
 				if err == io.EOF {
@@ -400,6 +394,12 @@ func c24StoreMenu() []c24StoreOp {
 				rd.Close()
 				if err != nil {
 					return "iterator opened before: " + normErr(err)
+				}
+				if a := inner.run(st, r); a != "" {
+					return a
+				}
+				if err := st.CloseIdleDescriptors(); err != nil {
+					return normErr(err)
 				}
 			}
 		}})
